@@ -130,5 +130,13 @@ CLAIMS['C18'] = {
   'note': _TB + 'Not proved: ExpressionParser.parse token loop, parentheses, function calls, ^ typing. Relational result type is C06, string/number Type mismatch is C01.',
 }
 
+CLAIMS['C30'] = {
+  'text': 'Proof of the frame argument: the viewport rectangle invariant (established by init/unset, preserved by set under the range checks of Graphics.view_, which are proved); '
+          'GraphicsViewPort.__setitem__/_convert_slice hand the pixel buffer only an empty or an in-viewport, in-screen rectangle with non-negative ends for every index form, screen size, rectangle and symbolic coordinates '
+          '(under the stated precondition that cutoff_coord establishes, itself proved, with _draw_box_filled checked end to end); every pixel store in class Graphics goes through the viewport (AST check on the current source); '
+          'every graphics statement raises Illegal function call before any effect in text mode.',
+  'note': _TB + 'The pixel buffer writes only the cells of the index it is given (stand-in). Call sites other than _draw_box_filled are assumed to satisfy the stop >= 0 precondition via cutoff_coord; the active page is the buffer bound by set_page.',
+}
+
 NOT_APPLICABLE = {
 }
